@@ -3,12 +3,17 @@
 # with LLVM's SanitizerCoverage "trace-pc-guard" instrumentation, i.e. a call to
 # __sanitizer_cov_trace_pc_guard at every basic-block edge. The simulator defines that
 # function (src/threads.rs block_point) and uses it as a source of scheduling points inside
-# library code that contain no allocation, lock event or log record. Dependencies and the
-# simulator itself are compiled as usual.
+# library code that contain no allocation, lock event or log record. The same two crates
+# also get LLVM's ThreadSanitizer instrumentation pass restricted to atomics: every atomic
+# operation in them (including the inlined fast paths of std's Mutex/RwLock/OnceLock/Arc)
+# becomes a call to __tsan_atomic*, which the simulator defines (src/atomics.rs): a
+# scheduling point, then the real operation. No sanitizer runtime is linked. Dependencies
+# and the simulator itself are compiled as usual.
 rustc="$1"; shift
 case " $* " in
   *" --crate-name prqlc "*|*" --crate-name prqlc_parser "*)
-    exec "$rustc" "$@" -Cpasses=sancov-module -Cllvm-args=-sanitizer-coverage-level=3 -Cllvm-args=-sanitizer-coverage-trace-pc-guard ;;
+    exec "$rustc" "$@" -Cpasses=sancov-module -Cllvm-args=-sanitizer-coverage-level=3 -Cllvm-args=-sanitizer-coverage-trace-pc-guard \
+      -Cpasses=tsan -Cllvm-args=-tsan-instrument-memory-accesses=0 -Cllvm-args=-tsan-instrument-func-entry-exit=0 -Cllvm-args=-tsan-instrument-memintrinsics=0 ;;
   *)
     exec "$rustc" "$@" ;;
 esac
